@@ -23,6 +23,9 @@ pub fn pidx(p: &PeerId) -> Option<u8> {
 pub enum R {
     Accept,
     AcceptLeios,
+    /// version accepted with `peer_sharing = 0` (PeerSharingDisabled): the responder does not
+    /// run the peer-sharing mini-protocol on this connection
+    AcceptNoSharing,
     Refuse,
     KeepAliveResp,
     SharePeersNone,
@@ -80,6 +83,7 @@ pub fn reply_msg(r: R, cookie: u16) -> AnyMessage {
     use proto::*;
     match r {
         R::Accept => AnyMessage::Handshake(handshake::Message::Accept(13, vdata())),
+        R::AcceptNoSharing => AnyMessage::Handshake(handshake::Message::Accept(13, handshake::n2n::VersionData::new(MAINNET_MAGIC, false, Some(0), Some(false)))),
         R::AcceptLeios => AnyMessage::Handshake(handshake::Message::Accept(handshake::n2n::LEIOS_MIN_VERSION, vdata())),
         R::Refuse => AnyMessage::Handshake(handshake::Message::Refuse(handshake::RefuseReason::VersionMismatch(vec![7]))),
         R::KeepAliveResp | R::Bad => AnyMessage::KeepAlive(keepalive::Message::ResponseKeepAlive(cookie)),
@@ -116,6 +120,9 @@ pub struct Spec {
     pub ln: u8,  // 0 Idle 1 Busy 2 Done
     pub lf: u8,  // 0 Idle 1 AwaitingBlock 2 AwaitingBlockTxs 3 Done
     pub tx: u8,  // 0 Init (client agency) ...
+    /// the responder accepted the version with peer sharing disabled: mini-protocol 10 does
+    /// not exist on this connection
+    pub ps_off: bool,
 }
 
 impl Spec {
@@ -130,6 +137,9 @@ impl Spec {
             AnyMessage::KeepAlive(keepalive::Message::KeepAlive(_)) if self.ka == 0 => self.ka = 1,
             AnyMessage::KeepAlive(keepalive::Message::Done) if self.ka == 0 => self.ka = 2,
             AnyMessage::KeepAlive(_) => return bad("keepalive", self.ka),
+            AnyMessage::PeerSharing(_) if self.ps_off => {
+                return Err("peersharing: the responder accepted the connection with peer sharing disabled (peer_sharing = 0); the mini-protocol must not be spoken".into())
+            }
             AnyMessage::PeerSharing(peersharing::Message::ShareRequest(_)) if self.ps == 0 => self.ps = 1,
             AnyMessage::PeerSharing(peersharing::Message::Done) if self.ps == 0 => self.ps = 2,
             AnyMessage::PeerSharing(_) => return bad("peersharing", self.ps),
@@ -158,7 +168,7 @@ impl Spec {
     pub fn server_choices(&self, leios: bool) -> Vec<R> {
         let mut v = vec![];
         if self.hs == 1 {
-            v.extend([R::Accept, R::Refuse]);
+            v.extend([R::Accept, R::AcceptNoSharing, R::Refuse]);
             if leios {
                 v.push(R::AcceptLeios);
             }
@@ -195,6 +205,10 @@ impl Spec {
     pub fn server_sends(&mut self, r: R) {
         match r {
             R::Accept | R::AcceptLeios | R::Refuse => self.hs = 2,
+            R::AcceptNoSharing => {
+                self.hs = 2;
+                self.ps_off = true;
+            }
             R::KeepAliveResp => self.ka = 0,
             R::SharePeersNone | R::SharePeersNew => self.ps = 0,
             R::IntersectFound | R::IntersectNotFound | R::RollForward | R::RollBackward => self.cs = 0,
